@@ -160,6 +160,12 @@ bool CmpNodePos::operator() (const Node* u, const Node* v) const {
     if (v->pos < u->pos) {
         return false;
     }
+    // Break ties between coincident positions by variable id, so that the
+    // scan-line order (and hence the result) does not depend on where the
+    // Node objects happen to be allocated.
+    if (u->v->id != v->v->id) {
+        return u->v->id < v->v->id;
+    }
     return u < v;
 }
 
